@@ -166,10 +166,8 @@ impl Recreate for Slicing {
 
 impl ReturnType for Slicing {
     fn return_type(&self) -> Type {
-        self.lhs
-            .return_type()
-            .element_type()
-            .unwrap_or(Type::String)
+        // a slice of a sequence is a sequence of the same kind
+        self.lhs.return_type()
     }
 }
 
